@@ -110,8 +110,16 @@ def tracesAgreeUpToStuck (pre post : List Event) : Bool :=
     let n := min cutPre'.length cutPost.length
     cutPre'.take n == cutPost.take n
 
-/-- the initial machine state of a test: registers and memory from the seed, stack pointer a multiple
-of 16 (`align`), the one-byte flag registers boolean -/
+/-- reserved seeds (appended by the harness to the random seeds of every case): every byte of every register in
+`others` is 0x80 resp. 0xff, so that the top bit of every sub-piece of every register is set in at least one
+execution (sign extensions, signed comparisons) -/
+def patternByte (seed : Nat) : Option Nat :=
+  if seed == 0xFFFF0080 then some 0x80 else if seed == 0xFFFF00FF then some 0xff else none
+
+def repeatByte (b : Nat) (n : Nat) : Nat := (List.range n).foldl (fun acc _ => acc * 256 + b) 0
+
+/-- the initial machine state of a test: registers and memory from the seed (or a byte pattern for the reserved
+seeds), stack pointer a multiple of 16 (`align`), the one-byte flag registers boolean -/
 def initialState (seed : Nat) (sp : Variable) (flags : List Variable) (others : List Variable := [])
     (align : Nat := 16) : State :=
   let base : State := { seed := seed }
@@ -119,7 +127,10 @@ def initialState (seed : Nat) (sp : Variable) (flags : List Variable) (others : 
   let flagRegs := flags.map fun f => (f, Bv.ofBytes f.size (mix (mix seed 0xF1A6) (strHash f.name) % 2))
   -- `others`: registers whose default value is materialised up front (same values as `regDefault`
   -- would give on demand; only avoids recomputing the hash at every read)
-  let rest := (others.filter fun v => v != sp && !flags.contains v).map fun v => (v, base.regDefault v)
+  let rest := (others.filter fun v => v != sp && !flags.contains v).map fun v =>
+    (v, match patternByte seed with
+      | some b => Bv.ofBytes v.size (repeatByte b v.size)
+      | none => base.regDefault v)
   { base with regs := (sp, Bv.ofBytes sp.size spVal) :: flagRegs ++ rest }
 
 inductive SubVerdict where
